@@ -297,6 +297,13 @@ def gen_cases(ctx):
     return cases
 
 
+def split_uncovered(line):
+    parts = line.split()
+    if parts and parts[-1][:1] == "X" and parts[-1][1:].isdigit():
+        return " ".join(parts[:-1]), int(parts[-1][1:])
+    return line, 0
+
+
 def parse_result(line, n):
     parts = line.split()
     if len(parts) != n:
@@ -425,6 +432,12 @@ def evaluate(ctx, cases, impl, model):
             ctx.count("op-" + t.split(".")[0])
         steps += len(s.toks)
         case = {"line": s.line(), "final_at": s.final_at}
+        # trailing `X<n>`: steps after which more HTTP handlers were alive than slots in use (the model has no such state:
+        # in ConnGuard.v a handler exists only inside its request's slot)
+        a, uncovered = split_uncovered(a)
+        if uncovered:
+            ctx.fail("oracle", "handler-running-without-slot", case,
+                     "after %d step(s) more HTTP method handlers were still running than connection slots were in use: %s" % (uncovered, a))
         b = norm_model(b, s.mx)
         refusals = any(f.startswith("429") or (f.startswith("b") and not f.startswith("b0:")) for f in a.split())
         ctx.record(case, a, nontrivial=refusals)
@@ -470,6 +483,9 @@ def replay(payload):
             rc, out = vlib.sh([cmd], input=line)
             outs[name] = out.strip()
             print(name, "->", out.strip())
+        outs["impl"], unc = split_uncovered(outs["impl"])
+        if unc:
+            print("oracle -> handler-running-without-slot (%d steps)" % unc)
         toks = case["line"].split()[2:]
         mx, mode = int(case["line"].split()[0]), case["line"].split()[1]
         res = parse_result(outs["impl"], len(toks))
